@@ -113,6 +113,8 @@ BUILDS = {
     "opts": Build("opts", cargo_env={"CARGO_PROFILE_RELEASE_OPT_LEVEL": "s"}),
     "optz": Build("optz", cargo_env={"CARGO_PROFILE_RELEASE_OPT_LEVEL": "z"}),
     "native": Build("native", rustflags="-C target-cpu=native"),
+    # the cfg that cargo-fuzz / afl / honggfuzz set on the whole dependency graph (some crates weaken checks under it)
+    "cfg-fuzzing": Build("cfg-fuzzing", rustflags="--cfg fuzzing --check-cfg cfg(fuzzing)"),
 }
 
 
